@@ -7,9 +7,11 @@ import (
 	"fmt"
 	"math/big"
 	"os"
+	"runtime"
 	"sort"
 	"strings"
 	"sync"
+	"sync/atomic"
 	"testing"
 
 	bn256 "github.com/ethereum/go-ethereum/crypto/bn256/cloudflare"
@@ -38,7 +40,9 @@ type c38Disk struct {
 	archived []string          // directories whose Archive was applied
 	saves    int
 	archives int
-	savedOK  int // Save calls applied to the disk
+	savedOK  int      // Save calls applied to the disk
+	savedAs  []string // directory+name of the applied Save calls
+	yields   int      // Gosched calls around the real disk write (concurrent steps)
 }
 
 func (d *c38Disk) Save(data []byte, directory string, name string) error {
@@ -53,6 +57,12 @@ func (d *c38Disk) Save(data []byte, directory string, name string) error {
 	case "crash-before":
 		panic(c38Crash{})
 	}
+	d.mu.Lock()
+	y := d.yields
+	d.mu.Unlock()
+	for i := 0; i < y; i++ {
+		runtime.Gosched()
+	}
 	if err := d.ProtectedHandle.Save(data, directory, name); err != nil {
 		if o == "crash-after" {
 			panic(fmt.Sprintf("VERIF-INCONCLUSIVE: real disk save failed: %v", err))
@@ -61,7 +71,11 @@ func (d *c38Disk) Save(data []byte, directory string, name string) error {
 	}
 	d.mu.Lock()
 	d.savedOK++
+	d.savedAs = append(d.savedAs, directory+name)
 	d.mu.Unlock()
+	for i := 0; i < y; i++ {
+		runtime.Gosched()
+	}
 	if o == "crash-after" {
 		panic(c38Crash{})
 	}
@@ -146,10 +160,22 @@ type c38Group struct {
 
 // c38Render is the harness' own canonical rendering of a membership (key
 // material and channel), independent of the protobuf encoding.
+// memberships are never mutated; reset per case, used by the harness goroutine only
+var c38RenderCache = map[*Membership]string{}
+
 func c38Render(m *Membership) string {
 	if m == nil || m.Signer == nil {
 		return "<nil>"
 	}
+	if r, ok := c38RenderCache[m]; ok {
+		return r
+	}
+	r := c38RenderUncached(m)
+	c38RenderCache[m] = r
+	return r
+}
+
+func c38RenderUncached(m *Membership) string {
 	s := m.Signer
 	var sb strings.Builder
 	fmt.Fprintf(&sb, "member=%d group=%x channel=%q ops=%v", s.MemberID(), s.GroupPublicKeyBytes(), m.ChannelName, s.GroupOperators())
@@ -183,6 +209,7 @@ type c38Machine struct {
 	registered map[int]map[group.MemberIndex]string
 
 	archives, crashes, failures, restarts, sweeps, chainErrors, latestSkipped, overwrites int
+	concurrentSteps, concurrentNewGroup                                                   int
 	archiveSinceRestart, crashSinceRestart, ntRestart                                     bool
 }
 
@@ -228,9 +255,37 @@ func (m *c38Machine) known(when string) {
 		if (len(got) > 0) != m.stored(g) {
 			m.fail("%s: registry knows group %d: %v (%d memberships), storage holds it: %v", when, g, len(got) > 0, len(got), m.stored(g))
 		}
+		have := map[group.MemberIndex]bool{}
 		for _, ms := range got {
 			if ms == nil || ms.Signer == nil || fmt.Sprintf("%x", ms.Signer.GroupPublicKeyBytes()) != fmt.Sprintf("%x", m.groups[g].key) {
 				m.fail("%s: GetGroup of group %d returns a membership of another group", when, g)
+			}
+			have[ms.Signer.MemberID()] = true
+			if _, ok := m.storage[g][ms.Signer.MemberID()]; !ok {
+				m.fail("%s: running registry holds member %d of group %d which storage does not hold", when, ms.Signer.MemberID(), g)
+			}
+		}
+		// seat level: the running registry holds exactly the members the disk
+		// holds (a repeated registration may leave an older copy in memory; the
+		// newest key material must be there)
+		var ids []int
+		for id := range m.storage[g] {
+			ids = append(ids, int(id))
+		}
+		sort.Ints(ids)
+		for _, i := range ids {
+			id := group.MemberIndex(i)
+			if !have[id] {
+				m.fail("%s: storage holds member %d of group %d but the running registry does not know that membership (it knows %d; a restarted registry would know %d)", when, id, g, len(got), len(m.storage[g]))
+			}
+			found := false
+			for _, ms := range got {
+				if ms.Signer.MemberID() == id && c38Render(ms) == m.storage[g][id] {
+					found = true
+				}
+			}
+			if !found {
+				m.fail("%s: running registry holds member %d of group %d with other key material than storage", when, id, g)
 			}
 		}
 	}
@@ -278,6 +333,109 @@ func (m *c38Machine) afterRestart() {
 	m.known("after restart")
 }
 
+// compareWithRestarted loads a second registry from the same disk, checks it
+// against the models like after a restart, and keeps the running one.
+func (m *c38Machine) compareWithRestarted() {
+	running, disk, chain := m.reg, m.disk, m.chain
+	m.open()
+	m.afterRestart()
+	for g := range m.groups {
+		a, b := map[group.MemberIndex]bool{}, map[group.MemberIndex]bool{}
+		for _, ms := range running.GetGroup(m.groups[g].key) {
+			a[ms.Signer.MemberID()] = true
+		}
+		for _, ms := range m.reg.GetGroup(m.groups[g].key) {
+			b[ms.Signer.MemberID()] = true
+		}
+		if len(a) != len(b) {
+			m.fail("running registry knows %d members of group %d, a registry restarted on the same storage knows %d", len(a), g, len(b))
+		}
+		for id := range b {
+			if !a[id] {
+				m.fail("a restarted registry knows member %d of group %d, the running one does not", id, g)
+			}
+		}
+	}
+	m.reg, m.disk, m.chain = running, disk, chain
+}
+
+// registerConcurrently registers several members of one group from parallel
+// goroutines released together (the DKG executor registers one signer per
+// controlled seat this way). Storage works; the disk layer yields.
+func (m *c38Machine) registerConcurrently(g int, members []group.MemberIndex, shares []int64, channel string, yields int) {
+	type job struct {
+		signer *dkg.ThresholdSigner
+		rec    string
+		err    error
+		p      any
+	}
+	gr := m.groups[g]
+	jobs := make([]*job, len(members))
+	for i, id := range members {
+		signer := dkg.NewThresholdSigner(id, gr.pk, big.NewInt(shares[i]), gr.shares, gr.ops)
+		jobs[i] = &job{signer: signer, rec: c38Render(&Membership{Signer: signer, ChannelName: channel})}
+	}
+	wasStored := m.stored(g)
+	m.disk.mu.Lock()
+	m.disk.nextSave = "ok"
+	m.disk.yields = yields
+	mark := len(m.disk.savedAs)
+	m.disk.mu.Unlock()
+	var ready atomic.Int32
+	var gate atomic.Bool
+	var wg sync.WaitGroup
+	for _, j := range jobs {
+		wg.Add(1)
+		go func(j *job) {
+			defer wg.Done()
+			defer func() { j.p = recover() }()
+			ready.Add(1)
+			for !gate.Load() {
+				runtime.Gosched()
+			}
+			j.err = m.reg.RegisterGroup(j.signer, channel)
+		}(j)
+	}
+	for ready.Load() != int32(len(jobs)) {
+		runtime.Gosched()
+	}
+	gate.Store(true)
+	wg.Wait()
+	m.disk.mu.Lock()
+	m.disk.yields = 0
+	applied := map[string]bool{}
+	for _, a := range m.disk.savedAs[mark:] {
+		applied[a] = true
+	}
+	m.disk.mu.Unlock()
+	m.logf("register-concurrently(g%d,m%v,yields=%d)", g, members, yields)
+	m.concurrentSteps++
+	if !wasStored {
+		m.concurrentNewGroup++
+	}
+	for i, j := range jobs {
+		if j.p != nil {
+			m.fail("RegisterGroup panicked in a concurrent registration: %v", j.p)
+		}
+		id := members[i]
+		if applied[fmt.Sprintf("%s/membership_%d", gr.dir, id)] {
+			if _, again := m.storage[g][id]; again {
+				m.overwrites++
+			}
+			m.storage[g][id] = j.rec
+			if _, ok := m.registered[g][id]; ok {
+				m.registered[g][id] = j.rec
+			}
+		}
+		if j.err == nil {
+			m.registered[g][id] = j.rec
+		}
+	}
+	// running registry == restarted registry == model
+	m.known("after " + m.tr[len(m.tr)-1])
+	m.compareWithRestarted()
+}
+
 func (m *c38Machine) restart(why string) {
 	if m.archiveSinceRestart && m.crashSinceRestart {
 		m.ntRestart = true
@@ -298,6 +456,7 @@ func TestVerif_C38_GroupRegistry(t *testing.T) {
 			t.Fatalf("VERIF-INCONCLUSIVE: %v", err)
 		}
 		defer os.RemoveAll(dir)
+		c38RenderCache = map[*Membership]string{}
 		m := &c38Machine{t: t, dir: dir, storage: map[int]map[group.MemberIndex]string{}, registered: map[int]map[group.MemberIndex]string{}}
 		used := map[int64]bool{}
 		for g := 0; g < 3; g++ {
@@ -327,7 +486,7 @@ func TestVerif_C38_GroupRegistry(t *testing.T) {
 		outcomes := []string{"ok", "ok", "ok", "ok", "ok", "ok", "ok", "fail", "fail", "crash-before", "crash-after", "crash-after"}
 		steps := rapid.IntRange(3, 30).Draw(t, "steps")
 		for i := 0; i < steps; i++ {
-			op := rapid.SampledFrom([]string{"register", "register", "register", "register", "sweep", "sweep", "restart"}).Draw(t, "op")
+			op := rapid.SampledFrom([]string{"register", "register", "register", "register-concurrently", "sweep", "sweep", "restart"}).Draw(t, "op")
 			g := rapid.IntRange(0, 2).Draw(t, "group")
 			id := group.MemberIndex(rapid.IntRange(1, 5).Draw(t, "member"))
 			share := rapid.Int64Range(1, 1<<30).Draw(t, "privateShare")
@@ -340,7 +499,15 @@ func TestVerif_C38_GroupRegistry(t *testing.T) {
 				staleness[k] = rapid.SampledFrom([]string{"stale", "stale", "fresh", "error"}).Draw(t, "stale")
 				archOutcome[k] = rapid.SampledFrom([]string{"ok", "ok", "ok", "fail", "crash-before", "crash-after"}).Draw(t, "archiveOutcome")
 			}
+			// parameters of a concurrent step (drawn unconditionally)
+			memberOrder := rapid.Permutation([]group.MemberIndex{1, 2, 3, 4, 5}).Draw(t, "members")
+			nMembers := rapid.IntRange(2, 5).Draw(t, "memberCount")
+			memberShares := rapid.SliceOfN(rapid.Int64Range(1, 1<<30), 5, 5).Draw(t, "memberShares")
+			yields := rapid.IntRange(0, 3).Draw(t, "diskYields")
 			switch op {
+			case "register-concurrently":
+				m.registerConcurrently(g, memberOrder[:nMembers], memberShares[:nMembers], channel, yields)
+				continue
 			case "register":
 				gr := m.groups[g]
 				signer := dkg.NewThresholdSigner(id, gr.pk, big.NewInt(share), gr.shares, gr.ops)
@@ -440,6 +607,8 @@ func TestVerif_C38_GroupRegistry(t *testing.T) {
 			fmt.Sprintf("storage-failures:%d", min(m.failures, 2)), fmt.Sprintf("restarts:%d", min(m.restarts, 5)),
 			fmt.Sprintf("sweeps:%d", min(m.sweeps, 3)), fmt.Sprintf("chain-errors:%v", m.chainErrors > 0),
 			fmt.Sprintf("latest-group-skipped:%v", m.latestSkipped > 0), fmt.Sprintf("member-overwritten:%v", m.overwrites > 0),
+			fmt.Sprintf("concurrent-registration-steps:%d", min(m.concurrentSteps, 4)),
+			fmt.Sprintf("concurrent-registration-of-new-group:%d", min(m.concurrentNewGroup, 3)),
 			"memberships-at-end:"+strings.Join(stored, "/"))
 	})
 }
